@@ -213,6 +213,22 @@ pub fn run(ctx: &Ctx) {
             );
         }
         ctx.record(&format!("sc.from_canonical_bytes/{}", hex(&b)), &[got.is_some() as u8]);
+        // legacy builds only: the deprecated unreduced constructor keeps the low 255 bits as they are, and the one
+        // operation documented for such scalars (scalar times point) computes the product for that integer
+        #[cfg(feature = "legacy")]
+        {
+            ctx.eval(1);
+            #[allow(deprecated)]
+            let fb = Scalar::from_bits(b);
+            let mut wantb = b;
+            wantb[31] &= 0x7f;
+            let int = U::from_le(&wantb);
+            let bp = curve25519_dalek::constants::ED25519_BASEPOINT_POINT;
+            let prod = guarded(|| (&bp * &fb).compress().0);
+            if fb.to_bytes() != wantb || prod != Ok(crate::model::ed::mul_base(&int).compress()) {
+                ctx.violation("sc.from_bits", "from_bits does not keep the low 255 bits, or B * from_bits(x) != [x]B", json!({"kind": "from_bits", "bytes": hex(&b)}));
+            }
+        }
     }
     ctx.count("noncanonical_encodings_rejected", rejected);
     ctx.count("reduce256_inputs", cands.len() as u64);
